@@ -406,8 +406,8 @@ pub fn hist<F: BoolExt>(args: &Args) {
         let n0 = 2 + rng.below((nmax - 1) as usize) as u32; // 2..=nmax
         let cache = [1usize, 2, 16, 1024][rng.below(4)];
         let threads = [1u32, 1, 2, 4][rng.below(4)];
-        let mut s: Session<F> = Session::new(&mut out, 60, cache, threads);
-        // capacity 60 < 100: no background collector; histories gc regularly
+        let mut s: Session<F> = Session::new(&mut out, 1 << 16, cache, threads);
+        // the high-water mark of the background collector (95 % of the capacity) is far out of reach
         s.add_vars(n0);
         if rng.chance(1, 2) {
             let p = rng.perm(n0 as usize);
